@@ -46,6 +46,12 @@ RelLockRecount(p, j) ==
      ELSE UNCHANGED <<ipc, cs, avail, cache, watching, files, info>>
   /\ UNCHANGED <<alive, obs, pend, jobst, dstat, notify, reclaiming, wl>>
 
+(* the reclaim thread finds that the job was started again since: the token file is not its business any more *)
+ReclaimKeep(p, j) ==
+  /\ alive[p]
+  /\ watching' = [watching EXCEPT ![p] = @ \ {j}] /\ reclaiming' = [reclaiming EXCEPT ![p] = @ \ {j}]
+  /\ UNCHANGED <<files, ipc, cs, alive, obs, avail, cache, pend, jobst, dstat, notify, wl, info>>
+
 (* an observer reports that it has cached a foreign token file and started a reclaim thread for it; the file was
    read before the report, so it may have been deleted in between (the stale entry is what the code keeps) *)
 CachedEv(p, j) ==
@@ -62,6 +68,7 @@ Logged ==
   \/ IsEvent("tok.evt.info") /\ OnInfo(Ev.p) /\ info'.ptotal[Ev.p] = Ev.total /\ Ev.delta = info.total - info.ptotal[Ev.p]
   \/ IsEvent("h.start") /\ Stutter
   \/ IsEvent("tok.init.error") /\ StartFails(Ev.p)
+  \/ IsEvent("h.resubmit") /\ Resubmit(Ev.job, Ev.count)
   \/ IsEvent("h.submit") /\ Stutter          \* (the call; its two steps are logged by the scheduler itself)
   \/ IsEvent("sched.dep.add") /\ SubmitAdd(Ev.job)
   \/ IsEvent("sched.dep.check") /\ SubmitCheck(Ev.job) /\ dstat'[Ev.job] = Ev.status
@@ -78,6 +85,7 @@ Logged ==
   \/ IsEvent("tok.file.delete") /\ (IF cs[Ev.p].kind = "rel" /\ cs[Ev.p].job = Ev.job THEN RelDelete(Ev.p) ELSE ReclaimDelete(Ev.p, Ev.job))
   \/ IsEvent("tok.watch.start") /\ Stutter      \* (the thread may announce itself before the handler that started it reports)
   \/ IsEvent("tok.watch.reclaim") /\ ReclaimDecide(Ev.p, Ev.job)
+  \/ IsEvent("tok.watch.keep") /\ ReclaimKeep(Ev.p, Ev.job)
   \/ IsEvent("tok.evt.cached") /\ CachedEv(Ev.p, Ev.job)
   \/ IsEvent("tok.evt.error") /\ OnCreatedOrModified(Ev.p, Ev.by, Ev.job) /\ ~obs'[Ev.p]
   \/ IsEvent("tok.evt.deleted") /\ OnDeleted(Ev.p, Ev.job)      \* (the in-memory count outside the ipc lock is allowed to drift)
@@ -96,12 +104,12 @@ Logged ==
 TraceNext == Logged
 
 WlOf(t) == [owner |-> [j \in Jobs |-> IF j \in DOMAIN t.owner THEN t.owner[j] ELSE "p1"],
-            req |-> [j \in Jobs |-> IF j \in DOMAIN t.req THEN t.req[j] ELSE 1], total |-> t.total, totals |-> {}]
+            req |-> [j \in Jobs |-> IF j \in DOMAIN t.req THEN t.req[j] ELSE 1], total |-> t.total, totals |-> {}, resub |-> {1, 2, 3, 4}]
 TraceInit == /\ tid \in DOMAIN Traces /\ InitWith(WlOf(Traces[tid].wl)) /\ l = 1
 TraceSpec == TraceInit /\ [][TraceNext]_tvars
 
 ToSet(q) == {q[x] : x \in DOMAIN q}
-InvList == << <<"Capacity", Capacity>>, <<"MutualExclusion", MutualExclusion>>, <<"ObserversSurvive", ObserversSurvive>>, <<"NoOrphanEmptyFile", NoOrphanEmptyFile>> >>
+InvList == << <<"Capacity", Capacity>>, <<"RunningHoldFile", RunningHoldFile>>, <<"RunningUnderCapacity", RunningUnderCapacity>>, <<"MutualExclusion", MutualExclusion>>, <<"ObserversSurvive", ObserversSurvive>>, <<"NoOrphanEmptyFile", NoOrphanEmptyFile>> >>
 BrokenInvs == {c[1] : c \in {x \in ToSet(InvList) : ~x[2]}}
 Progress ==
   /\ (TLCGet(tid) < l - 1 => TLCSet(tid, l - 1))
